@@ -107,7 +107,8 @@ def check_case(case):
     script = case.get("script") or {"BUTTON": [1, 0, 1, 0, 1, 0], "POINT": [3, 4, 5, 6, 7, 8], "INKEY$": ["K", "", "Q", "Z", "", "M"], "JOYSTK": [5, 9, 33, 60, 2, 7]}
     try:
         cb = diff.run_source(prog, script=script)
-        src, out = diff.translate(prog, case, {"initialize_vars": True}, paren_unary=case.get("paren_unary", False), source_override=case.get("source_override"))
+        src, out = diff.translate(prog, case, dict({"initialize_vars": True}, **case.get("options", {})), paren_unary=case.get("paren_unary", False),
+                                  source_override=case.get("source_override"))
         case["_source"] = src
     except Trivial as t:
         case["_trivial"] = t.why
@@ -325,7 +326,17 @@ def cases(draw, switches):
     if corners:
         prog.insert(1, [15, corners])
     nonlit = fg.g.n_ops > 0 or fg.g.n_conv > 0 or bool(fg.g.used)
-    return full.add_layout(draw, {"prog": prog, "paren_unary": "paren_unary" in switches,
+    # surroundings that must not matter for the calls (nor for the buffer prologue)
+    options = {}
+    if draw(st.integers(0, 3)) == 0:
+        options["add_suffix"] = False
+    if draw(st.integers(0, 3)) == 0:
+        options["filter_unused_linenum"] = True
+    if draw(st.integers(0, 5)) == 0:
+        options["default_str_storage"] = 80
+    if draw(st.integers(0, 5)) == 0:
+        options["default_width32"] = False
+    return full.add_layout(draw, {"prog": prog, "paren_unary": "paren_unary" in switches, "options": options,
                                   "_meta": {"forms": forms, "nonliteral": nonlit, "excluded": dict(fg.g.excluded), "n_conv": fg.g.n_conv}},
                            switches, key="source_override", one_in=2)
 
